@@ -515,20 +515,13 @@ var c04HopNames = []string{"Connection", "Keep-Alive", "Proxy-Authenticate", "Pr
 func c04Triggers(in *c04In, reqHdr http.Header) []string {
 	var t []string
 	hadHop := false
-	emptyFirstHop := false
 	for _, h := range c04HopNames {
-		if vv, ok := reqHdr[h]; ok {
+		if _, ok := reqHdr[h]; ok {
 			hadHop = true
-			if len(vv) > 0 && vv[0] == "" {
-				emptyFirstHop = true
-			}
 		}
 	}
 	if in.Fails > 0 && in.Retry && c04NonIdempotent(in) {
 		t = append(t, "retry:rewrite-reapplied")
-	}
-	if emptyFirstHop {
-		t = append(t, "request:hop-header-empty-first-value")
 	}
 	if rc := c04Lines(in.RHdr)["Connection"]; len(rc) >= 2 && c04LaterConnNames(rc, c04Lines(in.RHdr)) {
 		t = append(t, "response:second-connection-line")
@@ -546,6 +539,12 @@ func c04RepairedClasses(in *c04In, reqHdr http.Header) []string {
 	var t []string
 	if cv := reqHdr["Connection"]; len(cv) >= 2 && c04LaterConnNames(cv, reqHdr) {
 		t = append(t, "request:second-connection-line") // F-C04-1
+	}
+	for _, h := range c04HopNames {
+		if vv, ok := reqHdr[h]; ok && len(vv) > 0 && vv[0] == "" {
+			t = append(t, "request:hop-header-empty-first-value") // F-C04-2
+			break
+		}
 	}
 	return t
 }
